@@ -2,6 +2,11 @@
 
 package main
 
+import (
+	"fmt"
+	"strings"
+)
+
 func init() {
 	register("C01", func(c *Ctx) error {
 		base := GenOpt{MinStates: 2, MaxStates: 8, AutoPct: 25, MultiPct: 25, MinCalls: 1,
@@ -18,6 +23,44 @@ func init() {
 			"random schemas (2-8 user states + Exception, relation density swept, Auto/Multi 25%), "+
 				"histories of 1-30 Add/Remove/Set/Toggle/AddErr/CanAdd/CanRemove calls, 0-3 handler bindings with "+
 				"scripted vetoes (0-40%) and nested mutations; distinct by (input, observation); "+
-				"non-trivial = at least one transition executed", nil)
+				"non-trivial = at least one transition executed; plus a readers stream: 4 goroutines sampling "+
+				"Machine.StringAll() while the history runs, with the tx:applied schedule point yielding", nil,
+			histOpts{caseType: "c01case", wrap: "C01H", extra: func(out *Out) { c01Readers(c, out, withH) }})
 	})
+}
+
+// c01Readers: concurrent readers sampling StringAll while a history runs.
+func c01Readers(c *Ctx, out *Out, o GenOpt) {
+	n := c.N(40, 1500)
+	for i := 0; i < n; i++ {
+		in := genHistory(c.Rng, o)
+		samples := runWithReaders(in, 4)
+		var b strings.Builder
+		b.WriteString("C01R {| r_readers := [")
+		total := 0
+		for ri, rs := range samples {
+			if ri > 0 {
+				b.WriteString("; ")
+			}
+			b.WriteString("[")
+			for si, s := range rs {
+				if si > 0 {
+					b.WriteString("; ")
+				}
+				b.WriteString("[")
+				for k, p := range s {
+					if k > 0 {
+						b.WriteString("; ")
+					}
+					fmt.Fprintf(&b, "(%d%%N, %s)", p.Tick, coqBool(p.Active))
+				}
+				b.WriteString("]")
+				total++
+			}
+			b.WriteString("]")
+		}
+		b.WriteString("] |}")
+		out.Count("reader_samples", bucket(total))
+		out.Add("readers", in, map[string]any{"samples": total}, b.String(), total == 0, "")
+	}
 }
